@@ -40,6 +40,7 @@ func main() {
 	fs.IntVar(&opt.Workers, "j", 14, "parallel solver jobs")
 	fs.BoolVar(&opt.Verbose, "v", false, "verbose")
 	fs.StringVar(&opt.Only, "only", "", "restrict to functions/lemmas whose name contains this text (debugging)")
+	fs.StringVar(&opt.Scratch, "keep", "", "keep the generated .smt2 files in this directory (debugging)")
 	var args []string
 	rest := os.Args[2:]
 	for len(rest) > 0 && !strings.HasPrefix(rest[0], "-") {
@@ -175,7 +176,12 @@ func runCheck(prop string, opt *Options) int {
 		return 2
 	}
 	scratch, _ := os.MkdirTemp("", "govc-"+prop+"-")
-	defer os.RemoveAll(scratch)
+	if opt.Scratch != "" {
+		scratch = opt.Scratch
+		os.MkdirAll(scratch, 0o755)
+	} else {
+		defer os.RemoveAll(scratch)
+	}
 	var all []*Obl
 	for _, r := range results {
 		all = append(all, r.Obls...)
